@@ -2,8 +2,9 @@
 # Build the simulation harness test binary from /repo's current working tree.
 set -e
 export GOFLAGS=-mod=mod GOPROXY=off GOSUMDB=off GOTOOLCHAIN=local
-mkdir -p /verif/.build
-python3 /verif/tools/mkoverlay.py /verif/.build/overlay >/dev/null
-cd /verif/harness
+V="$(cd "$(dirname "$0")" && pwd)"
+mkdir -p "$V/.build"
+python3 "$V/tools/mkoverlay.py" "$V/.build/overlay" >/dev/null
+cd "$V/harness"
 cp /repo/go.sum go.sum
-/opt/veriftools/go1.26.8/bin/go test -c -vet=off -overlay /verif/.build/overlay/overlay.json -o /verif/.build/harness.test . 
+/opt/veriftools/go1.26.8/bin/go test -c -vet=off -overlay "$V/.build/overlay/overlay.json" -o "$V/.build/harness.test" .
